@@ -3,6 +3,7 @@ package main
 // Calls: builtins, callee contracts (module, interface-level, external/assumed), inlining, opaque calls.
 
 import (
+	"os"
 	"go/ast"
 	"fmt"
 	"go/types"
@@ -333,7 +334,7 @@ func (fr *frame) applyContract(b *ssa.BasicBlock, st *state, ins ssa.Instruction
 	if callee != nil || ct.Interface {
 		fr.variantObl(b, st, ins, ct, trPre, short, n, call)
 	}
-	if ct.External {
+	if ct.externalIn(vc.layer) {
 		vc.assumed[ "assumed contract on "+ct.Ref] = true
 	}
 	if ct.NoReturn {
@@ -348,7 +349,7 @@ func (fr *frame) applyContract(b *ssa.BasicBlock, st *state, ins ssa.Instruction
 	switch {
 	case ct.Pure:
 		ms = newModset()
-	case len(ct.Modifies) > 0 || ct.External:
+	case len(ct.Modifies) > 0 || ct.externalIn(vc.layer):
 		ms = newModset()
 		for _, k := range ct.Modifies {
 			ms.shape(vc.w.db.modKey(k)).any = true
@@ -610,6 +611,13 @@ func (fr *frame) dynamicCall(b *ssa.BasicBlock, st *state, ins ssa.Instruction, 
 	// closed world (funcvals.go): the callee is one of the module functions of this signature whose value is taken
 	// somewhere; the call has the union of their effects. A candidate's precondition cannot be established here (its
 	// captured variables are not known), so candidates with a precondition in this layer leave the call unresolved.
+	if vc.w.externalFuncValue(call.Value) {
+		vc.assumed["external call of the function value "+call.Value.Name()+" (returned by a function of another module): no effect on the modelled heap, does not panic, result unconstrained"] = true
+		if v != nil {
+			fr.havocVal(v, st)
+		}
+		return
+	}
 	if sig, ok := call.Value.Type().Underlying().(*types.Signature); ok {
 		if cands, complete := vc.w.funcValueCandidates(sig); complete && len(cands) > 0 {
 			ms := newModset()
@@ -620,6 +628,9 @@ func (fr *frame) dynamicCall(b *ssa.BasicBlock, st *state, ins ssa.Instruction, 
 				if ct := vc.w.db.Contracts[f.String()]; ct != nil {
 					for _, cl := range ct.clausesFor(vc.layer) {
 						if cl.Kind == "requires" {
+							if os.Getenv("GRITSVC_DEBUG_FUNCVALS") != "" {
+								fmt.Fprintf(os.Stderr, "funcvals: candidate %s has a precondition in layer %q: %s\n", f.String(), vc.layer, cl.Src)
+							}
 							okAll = false
 						}
 					}
@@ -637,6 +648,14 @@ func (fr *frame) dynamicCall(b *ssa.BasicBlock, st *state, ins ssa.Instruction, 
 				}
 				return
 			}
+		}
+	}
+	if os.Getenv("GRITSVC_DEBUG_FUNCVALS") != "" {
+		if sig, ok := call.Value.Type().Underlying().(*types.Signature); ok {
+			cands, complete := vc.w.funcValueCandidates(sig)
+			fmt.Fprintf(os.Stderr, "funcvals: unresolved %s: %d candidates, complete=%v, type %s\n", call.Value.Name(), len(cands), complete, call.Value.Type())
+		} else {
+			fmt.Fprintf(os.Stderr, "funcvals: unresolved %s: type %s (%T)\n", call.Value.Name(), call.Value.Type(), call.Value.Type().Underlying())
 		}
 	}
 	vc.c.unsup("call of an unknown function value " + call.Value.Name() + " at " + vc.pos(ins.Pos()))
